@@ -3,6 +3,7 @@ import Dbus.Model.Syntax
 import Dbus.Model.Utf8
 import Dbus.Model.Signature
 import Driver.Tree
+import Driver.Wire
 /-
   Line-protocol driver over Dbus.Model (compiled; imports no proofs and no Mathlib).
 
@@ -42,6 +43,9 @@ def handle (st : Stats) (line : String) : Stats × Option String :=
   | "tree" :: rest =>
     let (t, ans) := treeCmd st.tree rest
     ({ st with tree := t, bad := if ans = "bad-op" then st.bad + 1 else st.bad }, some ans)
+  | "wire" :: rest =>
+    let ans := wireCmd rest
+    ({ st with bad := if ans = "bad-op" then st.bad + 1 else st.bad }, some ans)
   | ["syn", hex] =>
     match ofHex hex with
     | some s => (st, some s!"{synModel s} {synSpec s}")
